@@ -68,14 +68,43 @@ def functions(src):
                 while impl_stack and impl_stack[-1][0] < m.start():
                     impl_stack.pop()
                 owner = impl_stack[-1][1] if impl_stack else ""
-                out.append(((owner + "::" if owner else "") + m.group(4), src[brace:end + 1]))
+                is_pub = re.search(r"\bpub(\s*\([^)]*\))?\s+((unsafe|const|async|extern\s*\"[^\"]*\")\s+)*$", src[max(0, m.start() - 60):m.start()]) is not None
+                out.append(((owner + "::" if owner else "") + m.group(4), src[brace:end + 1], is_pub))
             pending_skip = False
             skip_until = end
             continue
     return out
 
 
-def table(srcdir="/repo/src"):
+OPS_RE = r"\.lock\(\)|\.(fetch_add|fetch_sub|load|store|compare_exchange|swap)\(|\bfence\(|\.now\(\)"
+
+
+def inline_new_helpers(rel, fns, base):
+    """A private helper that the baseline does not know (extracted from its callers by a
+    refactoring) is not a section of its own: its body is counted at its call sites, as if it had
+    never been extracted.  Only helpers that resolve unambiguously: private, not a trait method,
+    name unique in the file."""
+    for _ in range(3):
+        names = [n.split("::")[-1] for n, _, _ in fns]
+        cand = None
+        for n, b, is_pub in fns:
+            own = n.split("::")[-1]
+            if (rel + "::" + n) in base or is_pub or " for " in n or names.count(own) != 1:
+                continue
+            if own in ("new", "drop", "clone", "poll", "fmt") or not re.search(OPS_RE, b):
+                continue
+            call = re.compile(r"\b%s\s*\(" % re.escape(own))
+            if any(call.search(b2[1:]) for n2, b2, _ in fns if n2 != n):
+                cand = (n, b, call)
+                break
+        if not cand:
+            break
+        n, b, call = cand
+        fns = [(n2, "{" + call.sub(lambda m: " " + b + " (", b2[1:]), p2) for n2, b2, p2 in fns if n2 != n]
+    return [(n, b) for n, b, _ in fns]
+
+
+def table(srcdir="/repo/src", base=None):
     t = {}
     for root, _, files in sorted(os.walk(srcdir)):
         for f in sorted(files):
@@ -84,6 +113,7 @@ def table(srcdir="/repo/src"):
             path = os.path.join(root, f)
             rel = os.path.relpath(path, srcdir)
             fns = functions(strip(open(path).read()))
+            fns = inline_new_helpers(rel, fns, base) if base is not None else [(n, b) for n, b, _ in fns]
             # functions of this file that take the lock / touch an atomic themselves: a call to one
             # of them from another function is a further critical section of the caller
             skip = {"new", "drop", "clone", "poll", "fmt"}
@@ -157,13 +187,13 @@ def relevant(prop):
 
 
 def run(prop=None, tier="quick", seed=1):
-    cur = table()
     rel = relevant(prop) if prop else None
-    if rel:
-        cur = {k: v for k, v in cur.items() if k.split("::")[0] in rel}
     if not os.path.exists(BASE):
         return [dict(kind="atomic-audit", detail="baseline atomic_sections.json missing")], {}
     base = json.load(open(BASE))
+    cur = table(base=base)
+    if rel:
+        cur = {k: v for k, v in cur.items() if k.split("::")[0] in rel}
     if rel:
         base = {k: v for k, v in base.items() if k.split("::")[0] in rel}
     probs = []
